@@ -420,11 +420,12 @@ class Ctx:
                 consts.extend(_consts_of(v))
             if consts:
                 pats = []
-                if ax.triggers:
+                if ax.triggers and not self.expand_quant:
                     for t in ax.triggers:
                         pats.append(_term_of(Pure(self, env).ev(_parse_spec(t))))
                     body = z3.ForAll(consts, body, patterns=[z3.MultiPattern(*pats) if len(pats) > 1 else pats[0]])
                 else:
+                    # small-scope mode expands spec calls in place, so they cannot serve as triggers
                     body = z3.ForAll(consts, body)
             self.axioms_z3.append(body)
 
@@ -551,6 +552,8 @@ class Pure:
             return self.env.bound[e.id]
         if e.id == "result":
             if self.result is None:
+                if "result" in self.env.vars:
+                    return self.env.vars["result"]  # a program variable that happens to be called result
                 raise Unsupported("result not available here")
             return self.result
         if e.id in self.env.vars:
@@ -753,6 +756,10 @@ class Pure:
             if name == "band":
                 a, b = self.ev(e.args[0]).t, self.ev(e.args[1]).t
                 return VInt(bit_and(a, b))
+            if name.startswith("spec_") and name[5:] in ("isolating", "defining", "definingAsContext", "definingForContent", "code"):
+                fn = self.ctx.funcs.setdefault(name, z3.Function(name, Obj, BOOL))
+                a = self.ev(e.args[0])
+                return VBool(fn((a.inner if isinstance(a, VOpt) else a).t))
             if name == "narrow":
                 a = self.ev(e.args[0])
                 if isinstance(a, VOpt):
@@ -778,7 +785,8 @@ class Pure:
             if name in api.ABSTRACT:
                 fn = self.ctx.abstract_fn(name)
                 pk, rk = api.ABSTRACT[name]
-                args = [coerce(self.ev(a), k) for a, k in zip(e.args, pk)]
+                vals = [self.ev(a) for a in e.args]
+                args = [coerce(v.inner if (isinstance(v, VOpt) and not k.startswith("opt[")) else v, k) for v, k in zip(vals, pk)]
                 return wrap(rk, fn(*[a.t for a in args]))
         raise Unsupported(f"call {ast.dump(e.func)[:60]} in specification")
 
